@@ -7,15 +7,18 @@ use anchor_lang::prelude::Pubkey;
 use marginfi_type_crate::types::{Balance, MarginfiAccount};
 
 pub mod c02;
+pub mod c04;
 pub mod c16;
 
 pub fn make(property: &str) -> Vec<Box<dyn Monitor>> {
     match property {
         "C02" => vec![Box::new(c02::C02::default())],
         "C16" => vec![Box::new(c16::C16::default())],
+        "C04" => vec![Box::new(c04::C04::default())],
         "ALL" => vec![
             Box::new(c02::C02::default()),
             Box::new(c16::C16::default()),
+            Box::new(c04::C04::default()),
         ],
         _ => vec![],
     }
@@ -83,4 +86,21 @@ pub fn short(k: &Pubkey) -> String {
 
 pub fn store_has_account(store: &Store, k: &Pubkey) -> bool {
     crate::model::account_of(store, k).is_some()
+}
+
+pub mod codes {
+    pub const BANK_ASSET_CAPACITY_EXCEEDED: u32 = 6003;
+    pub const RISK_ENGINE_INIT_REJECTED: u32 = 6009;
+    pub const ACCOUNT_NOT_BANKRUPT: u32 = 6013;
+    pub const BANK_PAUSED: u32 = 6016;
+    pub const BANK_REDUCE_ONLY: u32 = 6017;
+    pub const ILLEGAL_UTILIZATION: u32 = 6026;
+    pub const BANK_LIAB_CAPACITY_EXCEEDED: u32 = 6027;
+    pub const ISOLATED_ILLEGAL: u32 = 6029;
+    pub const UNAUTHORIZED: u32 = 6042;
+    pub const OVERLIQUIDATION: u32 = 6065;
+    pub const HEALTHY_ACCOUNT: u32 = 6068;
+    pub const TOO_SEVERE_LIQUIDATION: u32 = 6071;
+    pub const PROTOCOL_PAUSED: u32 = 6080;
+    pub const BANK_KILLED: u32 = 6084;
 }
